@@ -223,7 +223,9 @@ type valArea struct{ cfgs []*config }
 func (a *valArea) Gen(r *hx.Rng, n int, _ string, emit func(string)) {
 	for i := 0; i < n; i++ {
 		var s string
-		switch r.Intn(10) {
+		switch r.Intn(12) {
+		case 10, 11: // literals that are hard to convert (rounding midpoints, range limits, syntax edges)
+			s = literalExpr(r)
 		case 0, 1:
 			s = malformed(r)
 		case 2:
